@@ -6,22 +6,25 @@ import (
 	"unsafe"
 )
 
+// trimCR removes the trailing carriage return ('\r') characters from the line,
+// whether or not the line is terminated by a line feed.
+func trimCR[T ~[]byte | ~string](line T) T {
+	for len(line) > 0 && line[len(line)-1] == '\r' {
+		line = line[:len(line)-1]
+	}
+	return line
+}
+
 // NextNonEmptyLine returns the next non-empty line and the remaining text.
 // The line has its line feed ('\n') and carriage return ('\r') characters removed.
 func NextNonEmptyLine[T ~[]byte | ~string](text T) (T, T) {
 	for {
 		lfIndex := strings.IndexByte(*(*string)(unsafe.Pointer(&text)), '\n')
 		if lfIndex == -1 {
-			return text, text[len(text):]
+			return trimCR(text), text[len(text):]
 		}
-		line := text[:lfIndex]
+		line := trimCR(text[:lfIndex])
 		text = text[lfIndex+1:]
-		if lfIndex == 0 {
-			continue
-		}
-		if line[len(line)-1] == '\r' {
-			line = line[:len(line)-1]
-		}
 		if len(line) == 0 {
 			continue
 		}
@@ -35,18 +38,14 @@ func NonEmptyLines[T ~[]byte | ~string](text T) iter.Seq[T] {
 	return func(yield func(T) bool) {
 		for lfIndex := 0; len(text) > 0; text = text[lfIndex+1:] {
 			lfIndex = strings.IndexByte(*(*string)(unsafe.Pointer(&text)), '\n')
-			switch lfIndex {
-			case -1:
-				_ = yield(text)
+			if lfIndex == -1 {
+				if line := trimCR(text); len(line) > 0 {
+					_ = yield(line)
+				}
 				return
-			case 0:
-				continue
 			}
 
-			line := text[:lfIndex]
-			if line[len(line)-1] == '\r' {
-				line = line[:len(line)-1]
-			}
+			line := trimCR(text[:lfIndex])
 			if len(line) == 0 {
 				continue
 			}
